@@ -230,11 +230,31 @@ class PyReader:
                 self.block(s.body if t else s.orelse, env, fns)
             elif isinstance(s, ast.For):
                 it = self.ev(s.iter, env, fns)
+                if isinstance(it, str):
+                    it = list(it)
+                if isinstance(it, dict):
+                    it = list(it)
                 if not isinstance(it, list):
                     self.fail(s.iter, "loop over a non-concrete sequence")
                 broke = False
                 for x in it:
                     self.assign(s.target, x, env, s)
+                    try:
+                        self.block(s.body, env, fns)
+                    except _Break:
+                        broke = True
+                        break
+                    except _Continue:
+                        continue
+                if not broke and s.orelse:
+                    self.block(s.orelse, env, fns)
+            elif isinstance(s, ast.While):
+                rounds = 0
+                broke = False
+                while self.truthy(self.ev(s.test, env, fns), s.test):
+                    rounds += 1
+                    if rounds > 100000:
+                        self.fail(s, "loop bound exceeded")
                     try:
                         self.block(s.body, env, fns)
                     except _Break:
@@ -518,7 +538,7 @@ class PyReader:
                 if k in base:
                     return base[k]
                 raise Raised("KeyError", getattr(n, "lineno", 0))
-            if isinstance(base, list):
+            if isinstance(base, (list, str)):
                 if isinstance(n.slice, ast.Slice):
                     lo = self.ev(n.slice.lower, env, fns) if n.slice.lower is not None else None
                     hi = self.ev(n.slice.upper, env, fns) if n.slice.upper is not None else None
@@ -532,6 +552,8 @@ class PyReader:
         if isinstance(n, (ast.ListComp, ast.GeneratorExp)) and len(n.generators) == 1:
             g = n.generators[0]
             it = self.ev(g.iter, env, fns)
+            if isinstance(it, str):
+                it = list(it)
             if not isinstance(it, list):
                 self.fail(g.iter, "comprehension over a non-concrete sequence")
             out = []
@@ -810,6 +832,20 @@ class PyReader:
                     if n.func.attr == "xreplace":
                         kwargs = dict(kwargs, simultaneous=True)
                     return self.subs(base, args, kwargs, n)
+                if isinstance(base, str) and n.func.attr in ("splitlines", "strip", "lstrip", "rstrip", "startswith", "endswith", "split", "join", "replace", "lower", "upper",
+                                                             "isspace", "isdigit", "isalpha", "count", "find", "removeprefix", "removesuffix", "expandtabs") \
+                        and all(isinstance(a_, (str, int)) or (isinstance(a_, list) and all(isinstance(x_, str) for x_ in a_)) or a_ is None for a_ in args) and not kwargs:
+                    return getattr(base, n.func.attr)(*[tuple(a_) if n.func.attr in ("startswith", "endswith") and isinstance(a_, list) else a_ for a_ in args])
+                if isinstance(base, list) and n.func.attr == "pop" and len(args) <= 1 and all(isinstance(a_, int) for a_ in args):
+                    if not base or (args and not -len(base) <= args[0] < len(base)):
+                        raise Raised("IndexError", getattr(n, "lineno", 0))
+                    return base.pop(*args)
+                if isinstance(base, list) and n.func.attr in ("index", "count") and len(args) == 1:
+                    if n.func.attr == "count":
+                        return base.count(args[0])
+                    if args[0] in base:
+                        return base.index(args[0])
+                    raise Raised("ValueError", getattr(n, "lineno", 0))
                 r = self.hook_method(base, n.func.attr, args, kwargs, n)
                 if r is not NotImplemented:
                     return r
@@ -817,7 +853,7 @@ class PyReader:
             return {k: v for k, v in args[0]}
         if name == "dict" and len(args) == 1 and isinstance(args[0], dict):
             return dict(args[0])
-        if name == "len" and len(args) == 1 and isinstance(args[0], (list, dict)):
+        if name == "len" and len(args) == 1 and isinstance(args[0], (list, dict, str)):
             return len(args[0])
         if name in ("max", "min") and args and all(isinstance(a, int) for a in args):
             return max(args) if name == "max" else min(args)
@@ -827,8 +863,9 @@ class PyReader:
             if kwargs.get("strict") and len({len(a) for a in args}) > 1:
                 raise Raised("ValueError", getattr(n, "lineno", 0))
             return [list(t) for t in zip(*args)]
-        if name == "enumerate" and len(args) == 1:
-            return [[i, x] for i, x in enumerate(args[0])]
+        if name == "enumerate" and len(args) in (1, 2) and isinstance(args[0], (list, str)):
+            start = args[1] if len(args) == 2 else kwargs.get("start", 0)
+            return [[i, x] for i, x in enumerate(args[0], start)]
         if name == "range" and all(isinstance(a, int) for a in args):
             return list(range(*args))
         if name in ("sympify", "simplify", "S") and args:
